@@ -12,6 +12,7 @@ The second half (no_shared_mutation) is about the heap model Gsu/Model/Share.lea
 -/
 import Gsu.Proofs.DbStep
 import Gsu.Proofs.Share
+import Gsu.Proofs.DbIter
 import Gsu.Gen.Share
 namespace Gsu.Props.C02
 open Gsu.Db
@@ -42,6 +43,15 @@ theorem update_sees_own (ov : Overlay) (m : Layer) (k : Key) :
 theorem update_sees_own_sem (ov : Overlay) (m : Layer) (k : Key) :
     (ov.withMut m).sem k = (ov.sem k).bind (fun s => appO s (m.get k)) :=
   sem_withMut ov m k
+
+/-- update_sees_own through ITERATION: what a scan (or an iterator advanced step by step, the
+`scan` / `next` observations the drivers replay) of the transaction's overlay yields is exactly
+the keys its Lookup finds, with the offsets Lookup returns — i.e. snapshot + own changes, own
+deletes hidden, own updates with their latest version, whenever the iterator was opened. -/
+theorem iteration_sees_own (ov : Overlay) (m : Layer) (k : Key) (o : Off) :
+    (k, o) ∈ (ov.withMut m).entries ↔ eff (m.get k) (ov.lookup k) = some o := by
+  rw [← lookup_withMut]
+  exact ⟨entries_sound _ k o, entries_complete _ k o⟩
 
 /-- the code's top-down Lookup returns the meaning of the layers -/
 theorem lookup_is_sem (ov : Overlay) (k : Key) (v : KS) (h : ov.sem k = some v) : ov.lookup k = v :=
